@@ -97,27 +97,27 @@ def flat_class(c):
     return c01.sig_class(c)
 
 
-def run(ctx):
-    nrep = replay_idx(ctx)
-    d = F.export(ctx)
-    cases = d['cases']
-    jobs = plan(cases, ctx.quick, ctx.seed)
-    recs = []
-    worlds = {}
+_CASES = None
 
-    def world(c, cfg, validator, **kw):
-        key = (json.dumps([c['args'], c['rets']], sort_keys=True), cfg['delim'], cfg.get('strict', False), validator, json.dumps(kw, sort_keys=True))
-        w = worlds.get(key)
-        if w is None:
-            if len(worlds) > 400:
-                worlds.clear()
-            w = worlds[key] = F.World(c, cfg, validator, **kw)
-        return w
-    jobs.sort(key=lambda j: (json.dumps([cases[j[0]]['args'], cases[j[0]]['rets']], sort_keys=True), j[1]['delim'], j[1]['strict'], str(j[2])))
+
+def _world(worlds, c, cfg, validator, **kw):
+    key = (json.dumps([c['args'], c['rets']], sort_keys=True), cfg['delim'], cfg.get('strict', False), validator, json.dumps(kw, sort_keys=True))
+    w = worlds.get(key)
+    if w is None:
+        if len(worlds) > 400:
+            worlds.clear()
+        w = worlds[key] = F.World(c, cfg, validator, **kw)
+    return w
+
+
+def _req_chunk(jobs):
+    """the request exchanges of one chunk of jobs (one worker process; applications are cached per signature)"""
+    worlds = {}
+    recs = []
     for (i, cfg, validator, form) in jobs:
-        c = cases[i]
+        c = _CASES[i]
         try:
-            w = world(c, cfg, validator)
+            w = _world(worlds, c, cfg, validator)
             pairs = F.request_pairs(c, cfg)
             res = w.send(c, pairs, form=form)
             obs = {'pairs': [list(p) for p in pairs], 'ncalls': len(w.seen), 'args': w.delivered(c)}
@@ -125,7 +125,33 @@ def run(ctx):
         except Exception as e:
             obs = {'pairs': [], 'ncalls': 0, 'args': [['leaf', '?driver'] for _ in c['args']]}
             info = {'escape': 'driver: %s: %s' % (type(e).__name__, e)}
-        recs.append({'kind': 'req', 'c': c, 'cfg': cfg, 'validator': validator, 'form': form, 'obs': obs, 'info': info})
+        recs.append({'kind': 'req', 'i': i, 'cfg': cfg, 'validator': validator, 'form': form, 'obs': obs, 'info': info})
+    return recs
+
+
+def run(ctx):
+    nrep = replay_idx(ctx)
+    d = F.export(ctx)
+    cases = d['cases']
+    jobs = plan(cases, ctx.quick, ctx.seed)
+    global _CASES
+    import multiprocessing
+    _CASES = cases
+    recs = []
+    worlds = {}
+
+    def world(c, cfg, validator, **kw):
+        return _world(worlds, c, cfg, validator, **kw)
+    # (the jobs of one signature stay together: one application per signature and configuration; the exchanges run in a pool)
+    jobs.sort(key=lambda j: (json.dumps([cases[j[0]]['args'], cases[j[0]]['rets']], sort_keys=True), j[1]['delim'], j[1]['strict'], str(j[2])))
+    nproc = 12
+    size = max(1, (len(jobs) + nproc * 4 - 1) // (nproc * 4))
+    chunks = [jobs[a:a + size] for a in range(0, len(jobs), size)]
+    with multiprocessing.get_context('fork').Pool(nproc) as pool:
+        for part in pool.map(_req_chunk, chunks):
+            for r in part:
+                r['c'] = cases[r.pop('i')]
+                recs.append(r)
     # ---- Spyne's own flat form of every value, and back
     for i, c in enumerate(cases):
         if ctx.quick and c['id'] == 'T2' and (i + ctx.seed) % 12 != 0:
@@ -176,18 +202,9 @@ def run(ctx):
             obs = {'status': -1, 'body': '?driver', 'headers': [], 'want_headers': []}
             info = {'escape': 'driver: %s: %s' % (type(e).__name__, e)}
         recs.append({'kind': 'ret', 'c': c, 'cfg': cfg, 'validator': 'soft', 'form': False, 'obs': obs, 'info': info})
-    tf = os.path.join(ctx.work, 'flat_traces.ndjson')
-    with open(tf, 'w') as f:
-        for r in recs:
-            f.write(json.dumps({'kind': r['kind'], 'c': r['c'], 'cfg': r['cfg'], 'obs': r['obs']}) + '\n')
-    cfgt = pc.write_cfg(os.path.join(ctx.work, 'traceflat.cfg'), ['INIT Init', 'NEXT Next', 'CONSTRAINT Report', 'CHECK_DEADLOCK FALSE'])
-    rt = tlc.run('TraceFlat', cfgt, ctx.work, env={'TRACE_FILE': tf}, timeout=3000, workers=8)
-    seen = {}
-    for p in rt.prints:
-        if p and p[0] == 'V':
-            seen[p[1]] = set(p[2])
-    if len(seen) != len(recs):
-        raise tlc.TlcError('TraceFlat evaluated %d of %d\n%s' % (len(seen), len(recs), rt.stdout[-2500:]))
+    res = tlc.validate_records('TraceFlat', ['INIT Init', 'NEXT Next', 'CONSTRAINT Report', 'CHECK_DEADLOCK FALSE'], ctx.work,
+                               [{'kind': r['kind'], 'c': r['c'], 'cfg': r['cfg'], 'obs': r['obs']} for r in recs], chunk=6000, parallel=6, tag='flat')
+    seen = {k + 1: set(v[0]) for k, v in res.items()}
     nbad = 0
     for k, r in enumerate(recs):
         cl = seen[k + 1]
